@@ -18,7 +18,7 @@ import re
 from gen import srcgen
 from vlib import core, gencode
 
-COQ_TARGETS = ["Props/C01.vo", "Model/GoSemChecks.vo", "Model/Src.vo"]
+COQ_TARGETS = ["Props/C01.vo", "Model/GoSemChecks.vo", "Model/Src.vo", "Model/FrontEnd.vo", "Model/FrontEndSpec.vo", "Model/FrontEndCue.vo"]
 PROPS = "Props/C01.v"
 TRUSTED = [
     "hand-written Gallina model of encoding/json driven by the generated declarations and of the generated (strict) unmarshalers/marshalers (coq/Model/GoSemDecode.v, GoSemStrict.v), validated only on generated cases",
@@ -155,7 +155,7 @@ def run(ctx, verdict, replay=None, model_ok=True):
         for fmt in srcgen.FORMATS:
             for _ in range(per_fmt):
                 s = srcgen.SrcGen(rng, max_depth=4 if thorough else 3, fmt=fmt,
-                                  features=srcgen.ALL_FEATURES + srcgen.EXTRA_FEATURES).schema("s%03d" % k)
+                                  features=srcgen.ALL_FEATURES + srcgen.EXTRA_FEATURES + srcgen.FRONTEND_FEATURES).schema("s%03d" % k)
                 k += 1
                 camp.add_schema(s, fmt)
                 plan.append((s["pkg"], s))
@@ -314,6 +314,20 @@ def run(ctx, verdict, replay=None, model_ok=True):
     # ---- src_valid stream: coq Src.valid against the reference validators (all generated documents)
     src_stats = src_valid_stream(ctx, camp, plan, live, verdicts)
 
+    # ---- front-end models: coq parse_jsonschema / parse_openapi vs the pre-chain IR of the real front-ends
+    fe_plan = list(plan) + [(sid, job["meta"]["src_gallina"].replace(job.get("orig_pkg", sid), sid))
+                            for sid, job in replay_jobs if (job.get("meta") or {}).get("src_gallina")]
+    fe = frontend_stream(ctx, camp, fe_plan)
+    ctx.log("front-end models: " + json.dumps(fe["per_format"]))
+    fe_mismatches = [{"job": {"fmt": m["fmt"], "pkg": m["pkg"], "schema_text": m["schema_text"], "type": "Root", "docs": [],
+                              "meta": {"what": m.get("what", "pre-chain IR differs from Model/FrontEnd.v"),
+                                       "src_gallina": m["src_gallina"]}},
+                      "which": [{"jsonschema": "MM_FE_JS", "openapi": "MM_FE_OA", "cue": "MM_FE_CUE"}[m["fmt"]]]} for m in fe["mismatching"][:10]]
+    for ex in src_stats.get("parse_preserves_acceptance_examples", [])[:5]:
+        fe_mismatches.append({"job": {"fmt": ex["fmt"], "pkg": ex["pkg"], "schema_text": ex["schema_text"], "type": "Root",
+                                      "docs": [ex["doc"]], "meta": {"what": "src_valid <> ir_accepts (parse_jsonschema s)"}},
+                              "which": ["MM_FE_ACCEPT"]})
+
     # ---- coverage
     unm = set(ev["UNM"])
     schema_by = {sid: s for sid, s in plan}
@@ -366,6 +380,7 @@ def run(ctx, verdict, replay=None, model_ok=True):
         "outcome_histogram": out_hist,
         "property_failures_counted": counts,
         "src_valid_vs_reference": src_stats,
+        "front_end_models": {"per_format": fe["per_format"], "mismatching_schemas": len(fe["mismatching"])},
         "cli_crosscheck": cli,
         "unmodelled_groups": len(ev["UNM"]),
         "mismatches_model_vs_impl": {k: len(ev[k]) for k in ("MM_STD", "MM_STRICT", "MM_SPEC01")},
@@ -374,6 +389,7 @@ def run(ctx, verdict, replay=None, model_ok=True):
         "propfail_groups": {k: len(ev[k]) for k in ("PF_STD", "PF_STRICT", "PF_RT", "PF_RTS")},
         "cases_validated_against_impl": len(accepted) - len([i for i in accepted if i in unm]) - len(mm),
     }
+    unexplained = unexplained + fe_mismatches
     return {"coverage": cov, "unexplained_mismatches": unexplained,
             "search_note": "generated schemas (3 formats) x documents accepted by the reference validators; decode / strict decode / re-encode / re-validate on the real generated code"}
 
@@ -403,14 +419,21 @@ def src_valid_stream(ctx, camp, plan, live, verdicts):
 
     def do(k):
         ids = shards[k]
-        pre = ("From Coq Require Import List String ZArith Bool.\nFrom Cog Require Import Model.Json Model.Src.\nImport ListNotations.\nLocal Open Scope string_scope.\n"
+        pre = ("From Coq Require Import List String ZArith Bool.\nFrom Cog Require Import Model.Json Model.Src Model.FrontEnd Model.FrontEndSpec.\nImport ListNotations.\nLocal Open Scope string_scope.\n"
                "Definition cases : list (src_schema * string * string * json * bool) :=\n[%s].\n" % ";\n".join(cases[x] for x in ids))
         pre += ("Fixpoint indices_from {A} (f : A -> bool) (l : list A) (i : nat) : list nat :=\n"
                 "  match l with [] => [] | x :: r => if f x then i :: indices_from f r (S i) else indices_from f r (S i) end.\n")
-        r = core.coq_eval_lists(ctx, "srcvalid_%d" % k, pre, [("DIS", "indices_from src_valid_disagrees cases 0")])
-        return [ids[x] for x in r["DIS"]]
+        r = core.coq_eval_lists(ctx, "srcvalid_%d" % k, pre, [("DIS", "indices_from src_valid_disagrees cases 0"),
+                                                             ("ACC", "indices_from fe_accept_disagrees cases 0"),
+                                                             ("DOM", "indices_from fe_accept_in_domain cases 0"),
+                                                             ("DOMW", "indices_from fe_accept_weak_domain cases 0")])
+        return [ids[x] for x in r["DIS"]], [ids[x] for x in r["ACC"]], len(r["DOM"]), len(r["DOMW"])
 
-    dis = sorted(x for part in core.parallel(do, list(range(len(shards)))) for x in part)
+    parts = core.parallel(do, list(range(len(shards))))
+    dis = sorted(x for part in parts for x in part[0])
+    acc = sorted(x for part in parts for x in part[1])
+    dom = sum(part[2] for part in parts)
+    domw = sum(part[3] for part in parts)
     by_fmt = {}
     examples = []
     for x in dis:
@@ -419,4 +442,102 @@ def src_valid_stream(ctx, camp, plan, live, verdicts):
         by_fmt[fmt] = by_fmt.get(fmt, 0) + 1
         if len(examples) < 4:
             examples.append({"format": fmt, "doc": camp.jobs[i]["docs"][d]})
-    return {"documents": len(cases), "disagreements": len(dis), "disagreements_by_format": by_fmt, "examples": examples}
+    acc_examples = []
+    for x in acc[:4]:
+        i, d = owners[x]
+        acc_examples.append({"fmt": "jsonschema", "pkg": camp.jobs[i]["sid"], "schema_text": camp.texts[camp.jobs[i]["sid"]],
+                             "doc": camp.jobs[i]["docs"][d]})
+    return {"documents": len(cases), "disagreements": len(dis), "disagreements_by_format": by_fmt, "examples": examples,
+            "parse_preserves_acceptance_documents_in_domain": dom, "parse_preserves_acceptance_counterexamples": len(acc),
+            # documents meeting every hypothesis of the PROVED theorem parse_preserves_acceptance_partial_weak
+            "parse_preserves_acceptance_documents_in_proved_domain": domw,
+            "parse_preserves_acceptance_examples": acc_examples}
+
+
+FE_FN = {"jsonschema": ("parse_jsonschema", "fe_js_unmodelled", "fe_js_mismatch"),
+         "openapi": ("parse_openapi", "fe_oa_unmodelled", "fe_oa_mismatch"),
+         "cue": ("parse_cue", "fe_cue_unmodelled", "fe_cue_mismatch")}
+
+
+def _src_term(s):
+    """a Src schema (srcgen dict) or, in a replay, its Gallina text"""
+    return s if isinstance(s, str) else srcgen.src_to_gallina(s)
+
+
+def frontend_stream(ctx, camp, plan, verbose=False, formats=("jsonschema", "openapi", "cue")):
+    """coq/Model/FrontEnd.v parse_<fmt> evaluated on every generated Src schema and compared, inside Coq, with the
+    PRE-chain IR the real front-end produced (harness `gen`, codegen.Pipeline.LoadSchemas).  Returns counts per format
+    (schemas, unmodelled, mismatches) and the mismatching schemas (replayable: format + schema text)."""
+    batch = camp.batch
+    by_fmt = {}
+    for sid, s in plan:
+        fmt = batch.schemas[sid][1]
+        if fmt in formats and sid in batch.gen:
+            by_fmt.setdefault(fmt, []).append((sid, s))
+    out = {"per_format": {}, "examples": [], "mismatching": []}
+    for fmt, items in by_fmt.items():
+        parse, f_unm, f_mm = FE_FN[fmt]
+        cases = []
+        cue_rejected = 0
+        if fmt == "cue":
+            # what cog's CUE front-end refuses (structural cycles, ...) is not modelled: counted, not compared
+            cue_rejected = len([1 for sid, _ in items if batch.gen[sid].status != "OK"])
+            items = [(sid, s_) for sid, s_ in items if batch.gen[sid].status == "OK"]
+        for sid, s in items:
+            g = batch.gen[sid]
+            obs = "(Some %s)" % g.pre_ir if g.status == "OK" else "None"
+            cases.append("(%s, %s)" % (_src_term(s), obs))
+        shard = 25
+        shards = [list(range(k, min(k + shard, len(cases)))) for k in range(0, len(cases), shard)]
+
+        def do(k, fmt=fmt, cases=cases, shards=shards, f_unm=f_unm, f_mm=f_mm):
+            ids = shards[k]
+            pre = ("From Coq Require Import List String ZArith Bool.\nFrom Cog Require Import Model.IR Model.Json Model.Src Model.FrontEnd Model.FrontEndSpec Model.FrontEndCue.\n"
+                   "Import ListNotations.\nLocal Open Scope string_scope.\n"
+                   "Definition cases : list (src_schema * option schemas) :=\n[%s].\n" % ";\n".join(cases[x] for x in ids))
+            pre += ("Fixpoint indices_from {A} (f : A -> bool) (l : list A) (i : nat) : list nat :=\n"
+                    "  match l with [] => [] | x :: r => if f x then i :: indices_from f r (S i) else indices_from f r (S i) end.\n")
+            defs = [("UNM", "indices_from %s cases 0" % f_unm), ("MM", "indices_from %s cases 0" % f_mm)]
+            if fmt == "jsonschema":
+                # parse_jsonschema_keeps_constraints on data: KEPT_BAD must stay empty; TA = the refuting shape occurs
+                defs += [("KEPT_BAD", "indices_from (fun c => src_wf (fst c) && schema_no_constrained_typearray (fst c) && negb (schema_fields_kept (fst c)))%bool cases 0"),
+                         ("TA", "indices_from (fun c => src_wf (fst c) && negb (schema_no_constrained_typearray (fst c)) && negb (schema_fields_kept (fst c)))%bool cases 0"),
+                         ("WF", "indices_from (fun c => src_wf (fst c)) cases 0"),
+                         # members meeting the hypotheses of parse_jsonschema_keeps_constraints_partial_weak
+                         ("KDOM", "map (fun c => if src_wf (fst c) then schema_kept_domain (fst c) else O) cases"),
+                         ("KCEX", "map (fun c => if src_wf (fst c) then schema_kept_counterexamples (fst c) else O) cases")]
+            r = core.coq_eval_lists(ctx, "fe_%s_%d" % (fmt, k), pre, defs)
+            extra = {k_: [ids[x] for x in r[k_]] for k_ in ("KEPT_BAD", "TA", "WF") if k_ in r}
+            extra["KDOM"] = sum(r.get("KDOM", []))
+            extra["KCEX"] = sum(r.get("KCEX", []))
+            return [ids[x] for x in r["UNM"]], [ids[x] for x in r["MM"]], extra
+
+        parts = core.parallel(do, list(range(len(shards))))
+        unm = sorted(x for p_ in parts for x in p_[0])
+        mm = sorted(x for p_ in parts for x in p_[1])
+        rejected = sum(1 for sid, _ in items if batch.gen[sid].status != "OK")
+        out["per_format"][fmt] = {"schemas": len(items) + cue_rejected, "rejected_by_cog": rejected + cue_rejected,
+                                  "unmodelled": len(unm) + cue_rejected, "mismatches": len(mm)}
+        if fmt == "jsonschema":
+            kb = sorted(x for p_ in parts for x in p_[2].get("KEPT_BAD", []))
+            out["per_format"][fmt].update({
+                "well_formed_schemas": sum(len(p_[2].get("WF", [])) for p_ in parts),
+                "keeps_constraints_counterexamples_outside_the_excluded_shape": len(kb),
+                "keeps_constraints_members_in_proved_domain": sum(p_[2].get("KDOM", 0) for p_ in parts),
+                "keeps_constraints_members_in_proved_domain_not_kept": sum(p_[2].get("KCEX", 0) for p_ in parts),
+                "schemas_with_the_constrained_type_array_shape_losing_constraints": sum(len(p_[2].get("TA", [])) for p_ in parts)})
+            for x in kb:
+                out["mismatching"].append({"fmt": fmt, "pkg": items[x][0], "schema_text": camp.texts[items[x][0]],
+                                           "what": "field facts not kept", "src_gallina": _src_term(items[x][1])})
+        for x in mm:
+            sid, s = items[x]
+            out["mismatching"].append({"fmt": fmt, "pkg": sid, "schema_text": camp.texts[sid], "src_gallina": _src_term(s)})
+            if verbose and len(out["examples"]) < 3:
+                body = ("From Coq Require Import List String ZArith Bool.\nFrom Cog Require Import Model.IR Model.Json Model.Src Model.FrontEnd Model.FrontEndCue.\n"
+                        "Import ListNotations.\nLocal Open Scope string_scope.\nEval vm_compute in (%s %s).\n" % (parse, _src_term(s)))
+                path = os.path.join(ctx.scratch, "fe_dbg_%s.v" % sid)
+                open(path, "w").write(body)
+                rc, o = core.coqc_file(path)
+                out["examples"].append({"format": fmt, "schema_text": camp.texts[sid], "model": re.sub(r"\s+", " ", o),
+                                        "observed": batch.gen[sid].pre_ir if batch.gen[sid].status == "OK" else batch.gen[sid].message})
+    return out
